@@ -201,7 +201,35 @@ def run_case(case):
     db = hexlib.FailingDict()
     r = hexlib.HexRunner(res, prune, observe, db=db)
     take(r, r.trie, r.model)
-    r.run(case["ops"])
+    if len(repr(case["ops"])) % 4 == 1:
+        # a block on an UNRELATED trie (own database) stays open around the whole history: two squash_changes blocks alive at
+        # the same time must not see each other (seeded change C05p-scratchdb-mutable-default-cache)
+        from trie import HexaryTrie as _HT
+        bdb = {}
+        bt = _HT(bdb, prune=prune)
+        bt.set(b"\x77\x01", b"w" * 40)
+        bt.set(b"\x77\x02", b"x" * 40)
+        res.tags.add("second-trie-block-open-at-the-same-time")
+        try:
+            with bt.squash_changes() as bb:
+                bb.set(b"\x77\x03", b"y" * 40)
+                bb.delete(b"\x77\x01")
+                r.run(case["ops"])
+                bb.set(b"\x77\x02", b"z" * 40)
+            want = {b"\x77\x02": b"z" * 40, b"\x77\x03": b"y" * 40}
+            if bt.root_hash != hexlib.yp_root(want):
+                res.fail("bystander-block-wrong", "a block on an unrelated trie, open meanwhile, committed a wrong root")
+            for k, v in list(want.items()) + [(b"\x77\x01", b"")]:
+                if bt.get(k) != v:
+                    res.fail("bystander-block-wrong", "the unrelated trie reads get(%r) = %r after its block, expected %r" % (k, bt.get(k), v))
+            if prune and set(bdb) != set(hexlib.yp_nodes(want)[0]):
+                res.fail("bystander-block-wrong", "the unrelated pruning trie's database is not exact after its block")
+        except Exception as e:  # noqa
+            if isinstance(e, hexlib.BOOMS):
+                raise
+            res.fail("bystander-block-wrong", "the block on the unrelated trie raised %r" % (e,))
+    else:
+        r.run(case["ops"])
     res.tags.add("prune" if prune else "noprune")
     res.nontrivial = info["changed"]
     res.state_key = common.sha([prune, case["ops"]])
